@@ -144,6 +144,7 @@ Record op := {
   o_conn : N;      (* 0 = the pool *)
   o_gtx : bool;    (* the operation's context carries an xid (irrelevant for commit / rollback) *)
   o_ok : bool;     (* the caller saw success *)
+  o_prep : bool;   (* the caller prepared the statement (PrepareContext + Stmt.Exec/Query) *)
   o_vp : bool }.   (* bound arguments while the DSN has interpolateParams off: the target answers
                       driver.ErrSkip to the direct call and database/sql prepares the statement *)
 
@@ -221,7 +222,20 @@ Definition commit_pats (d z : bool) : list pat :=
 
 (* the statement through the prepared path (o_vp): only the plain executor is modelled there *)
 Definition vp_pats (k : exkind) (q : bool) : option (list pat) :=
-  match k with ExPlain => Some [ok1 tPrepare; ok1 (stmt_tag q)] | _ => None end.
+  match k with
+  | ExPlain => Some [ok1 tPrepare; ok1 (stmt_tag q)]
+  | ExSfu => Some [ok1 tSp; ok1 tSp; ok1 tPrepare; ok1 (stmt_tag q)]   (* savepoint, rollback to it, then the prepared statement *)
+  | _ => None
+  end.
+
+(* a statement the caller prepared, run with an xid context: Stmt.QueryContext / Stmt.ExecContext reach
+   the target statement without bracket, images or lock query (plain statements and locking reads;
+   prepared DML is a listed finding) *)
+Definition prep_pats (k : exkind) (q : bool) : option (list pat) :=
+  match k with
+  | ExPlain | ExSfu => Some [ok1 tPrepare; ok1 (stmt_tag q)]
+  | _ => None
+  end.
 
 (* is the local bracket the proxy's own (autocommit statement with an xid context)? *)
 Definition is_bracket (s : txs) (o : op) : bool :=
@@ -255,17 +269,22 @@ Definition step (c : cfg) (px : proxy) (s : txs) (o : op) (obs : list ev) : opti
       else match px with
       | XA =>
           match tx_get (o_conn o) s with
-          | None => if N.eqb (o_conn o) 0 && negb (o_vp o) then accept (Some (xa_pats q)) obs s else None
+          | None => if N.eqb (o_conn o) 0 && negb (o_vp o) && negb (o_prep o) then accept (Some (xa_pats q)) obs s else None
           | Some _ => None
           end
       | AT =>
           let k := route c true ty in
           let nz := img_nz obs in
+          if o_prep o then accept (prep_pats k q) obs s else
           match tx_get (o_conn o) s with
           | None =>
               if negb (N.eqb (o_conn o) 0) then None
               else if o_vp o
-              then accept (match vp_pats k q with Some l => Some ([ok1 tBegin; ok1 tRollback] ++ l) | None => None end) obs s
+              then accept (match k with
+                           | ExPlain => Some [ok1 tBegin; ok1 tRollback; ok1 tPrepare; ok1 (stmt_tag q)]
+                           | ExSfu => Some [ok1 tBegin; ok1 tSp; ok1 tSp; ok1 tRollback; ok1 tPrepare; ok1 (stmt_tag q)]
+                           | _ => None
+                           end) obs s
               else accept (bracketed k q nz) obs s
           | Some TxL =>
               if o_vp o then accept (vp_pats k q) obs s
